@@ -9,7 +9,9 @@
                                            and the 21 fields afterwards (none | some(v))
       pz.raw <target> <state> [off]        <state> = the 21 fields written directly (they are pub)
     target 0 to_naive_date, 1 to_naive_time, 2 to_naive_datetime_with_offset off,
-           3 to_datetime, 4 to_datetime_with_timezone(FixedOffset off), 5 to_fixed_offset. *)
+           3 to_datetime, 4 to_datetime_with_timezone(FixedOffset off), 5 to_fixed_offset.
+      pz.zone <state> <t> <a> <b>          to_datetime_with_timezone on a zone with one transition
+                                           (offset a before instant t, b from then on) *)
 From Coq Require Import ZArith List Bool String.
 From V Require Import Base.Int Base.IO Model.TimeDelta.
 From V Require Model.Date Model.Time.
@@ -94,6 +96,61 @@ Definition resolve (target : Z) (p : parsed) (off : option Z) : val :=
     else VBad
   end.
 
+(** A zone with ONE transition, for [to_datetime_with_timezone] on a zone that is not a fixed offset
+    (the harness's [StepZone { t, a, b }]): offset [a] before instant [t] (seconds since the epoch),
+    [b] from then on.
+      offset_from_utc_datetime(utc)    = if utc.timestamp() < t { a } else { b }
+      offset_from_local_datetime(l)    with w = l.and_utc().timestamp():
+          early := w - a < t,  late := w - b >= t
+          early && late -> Ambiguous(a, b) | early -> Single(a) | late -> Single(b) | else None
+    and the provided [TimeZone::from_local_datetime] (src/offset/mod.rs): each candidate offset is
+    mapped through [local.checked_sub_offset(off)], an Ambiguous pair needs both. *)
+Definition sz_offset_utc (t a b : Z) (u : ndt) : R Z :=
+  let* ts := dt_timestamp u in Val (if ts <? t then a else b).
+Definition sz_from_local (t a b : Z) (local : ndt) : R (mlt dtz) :=
+  let* w := dt_timestamp local in
+  let early := (w - a <? t) in
+  let late := (t <=? w - b) in
+  let cand (off : Z) : R (option dtz) :=
+    let* o := ndt_checked_sub_offset local off in
+    Val (match o with Some u => Some (mk_dtz u off) | None => None end) in
+  if early && late then
+    let* x := cand a in let* y := cand b in
+    Val (match x, y with Some x, Some y => MAmbiguous x y | _, _ => MNone end)
+  else if early then let* x := cand a in Val (match x with Some x => MSingle x | None => MNone end)
+  else if late then let* y := cand b in Val (match y with Some y => MSingle y | None => MNone end)
+  else Val MNone.
+(** Parsed::to_datetime_with_timezone (src/format/parsed.rs) for that zone: same body as
+    [to_datetime_with_timezone] of Model/Parsed.v with the zone's two lookups *)
+Definition to_datetime_with_stepzone (p : parsed) (t a b : Z) : R (res dtz) :=
+  let! guessed_offset :=
+    (match p_timestamp p with
+     | Some timestamp =>
+       let nanosecond := unwrap_or (p_nanosecond p) 0 in
+       let! dt := ok_or_r (dt_from_timestamp timestamp nanosecond) OutOfRange in
+       let* o := sz_offset_utc t a b dt in Val (Ok o)
+     | None => Val (Ok 0)
+     end) in
+  (* repaired (fixes/C14-timezone-timestamp-candidate.diff): with a timestamp the candidate must
+     also have the offset the zone has at that instant *)
+  let check_offset (dt : dtz) : bool :=
+    if (match p_timestamp p with Some _ => true | None => false end) && negb (dz_off dt =? guessed_offset)
+    then false
+    else match p_offset p with Some offset => dz_off dt =? offset | None => true end in
+  let! datetime := to_naive_datetime_with_offset p guessed_offset in
+  let* m := sz_from_local t a b datetime in
+  match m with
+  | MNone => Val (Err Impossible)
+  | MSingle x => if check_offset x then Val (Ok x) else Val (Err Impossible)
+  | MAmbiguous mn mx =>
+    match check_offset mn, check_offset mx with
+    | false, false => Val (Err Impossible)
+    | false, true => Val (Ok mx)
+    | true, false => Val (Ok mn)
+    | true, true => Val (Err NotEnough)
+    end
+  end.
+
 Definition target_off (rest : list val) : option (option Z) :=
   match rest with
   | [] => Some None
@@ -134,6 +191,16 @@ Definition run (op : bytes) (args : list val) : val :=
       match dec_state all_fields l parsed_new, target_off rest with
       | Some p, Some off => resolve target p off
       | _, _ => VBad
+      end
+    | _ => VBad
+    end
+  else if op_is op "pz.zone" then
+    match args with
+    | [VTup l; VInt t; VInt a; VInt b] =>
+      match dec_state all_fields l parsed_new, east_opt a, east_opt b with
+      | Some p, Some _, Some _ =>
+          if in_i64 t then val_of_R (val_of_res enc_dtz) (to_datetime_with_stepzone p t a b) else VBad
+      | _, _, _ => VBad
       end
     | _ => VBad
     end
